@@ -217,7 +217,7 @@ def run_scenario(scn):
 
         stats["reversal_err_decades"] = {f"1e{int(math.floor(math.log10(e18 / 1e18)))}": 1}
     for x in ctx.violations:
-        if x["cls"] in ("input-modified", "not-reversible", "reversal-foreign-exception", "reversibility-failure-not-raised"):
+        if x["cls"] in ("input-modified", "not-reversible", "reversal-foreign-exception", "reversibility-failure-not-raised", "solver-failure-swallowed"):
             y = dict(x)
             y["sig"] = f"{PROP} {x['sig']}"
             viols.append(y)
